@@ -24,3 +24,7 @@ def run(F, X, rep):
     H.u5_no_individual_rejection(C, rep, "C07-U5")
     H.q_request_fields_verbatim(C, rep, "C07-Q")
     R.u4_fail_arm_forwards(C, rep, "C07-U4")
+    # "all HTLCs held for the hash receive the response": the drain takes the table lock, so nothing may block while that lock is held - the
+    # ready / fail signals are latched single-shot sends (a second send on the capacity-1 channel would block a handler forever with the
+    # lock held, and no held HTLC would ever be answered): C14-L1, cited
+    H.p6_no_blocking_under_lock(C, rep, "C07-B")
